@@ -74,6 +74,9 @@ func (c27) Gen(r *sim.Rng, tier string) *scn.Scn {
 	s.P["reader"] = int64(r.Intn(4)) // 0 bufio, 1 byte-at-a-time non-bufio, 2 bufio over eof-with-data source, 3 non-bufio chunked
 	s.P["maxchunk"] = int64([]int{1, 2, 3, 7, 64, 10000}[r.Intn(6)])
 	s.P["chunkseed"] = int64(r.U64() >> 1)
+	if r.Chance(1, 3) {
+		s.P["reuse_target"] = 1 // the caller decodes every frame of a type into the same message value
+	}
 	s.P["maxsize_mode"] = int64(r.Intn(6)) // 0 default, 1 unlimited, 2 size-1, 3 size, 4 size+1, 5 default
 	if n > 0 {
 		s.P["maxsize_frame"] = int64(r.Intn(n))
@@ -403,6 +406,7 @@ func c27ReadAll(s *scn.Scn, x *sim.Exec, frames []c27Frame, rd *c27Reader, cut, 
 	optMax, effMax := c27MaxSize(s, frames)
 	opts := protodelim.UnmarshalOptions{MaxSize: optMax}
 	var got []proto.Message
+	var reuse map[string]proto.Message
 	defer func() {
 		// C14, protodelim clause: messages returned earlier must not have
 		// changed while later frames went through the same reader buffer.
@@ -420,6 +424,17 @@ func c27ReadAll(s *scn.Scn, x *sim.Exec, frames []c27Frame, rd *c27Reader, cut, 
 			typ = frames[0].typ
 		}
 		m := gen.NewMsg(typ)
+		if s.P["reuse_target"] == 1 {
+			// a caller may decode frame after frame into one message value: UnmarshalFrom replaces its content
+			if reuse == nil {
+				reuse = map[string]proto.Message{}
+			}
+			if t, ok := reuse[typ]; ok {
+				m = t
+			} else {
+				reuse[typ] = m
+			}
+		}
 		var err error
 		if p := sim.Protect(func() { err = opts.UnmarshalFrom(rd.r, m) }); p != "" {
 			x.Fail("panic:UnmarshalFrom", "UnmarshalFrom panicked at frame %d, cut %d: %s", i, cut, p)
@@ -464,6 +479,9 @@ func c27ReadAll(s *scn.Scn, x *sim.Exec, frames []c27Frame, rd *c27Reader, cut, 
 				}
 			} else {
 				x.Probe("non-bufio-reader", 1)
+			}
+			if reuse != nil {
+				m = proto.Clone(m) // the target will be overwritten by the next read
 			}
 			got = append(got, m)
 			continue
